@@ -129,6 +129,9 @@ func cmdVerify(args []string) {
 				status = "FAILED"
 			}
 			fmt.Printf("   %-70s %-10s n=%d %v %.2fs\n", n, status, len(obs), cnt, secs)
+			if status == "FAILED" && obs[0].Solver == "callgraph" {
+				fmt.Println("      " + strings.ReplaceAll(obs[0].Output, "\n", "\n      "))
+			}
 			if *dump != "" && strings.Contains(n, *dump) {
 				for i, ob := range obs {
 					if ob.Status != "unsat" || obs[0].Kind == "cover" || *dump == n {
